@@ -118,8 +118,7 @@ impl GraphRunner for Graph {
         loop {
             let mut done = true;
             let mut all_idle = true;
-            let activity = crate::circular_buffer::STREAM_ACTIVITY
-                .load(std::sync::atomic::Ordering::Relaxed);
+            let activity = crate::circular_buffer::stream_activity_count();
             #[cfg(rustradio_verif)]
             crate::verif::emit("\"ev\":\"g_pass\"".to_string());
             if self.cancel_token.is_canceled() {
@@ -179,9 +178,7 @@ impl GraphRunner for Graph {
             // A block may move data and still return a wait or EOF status. Then
             // other blocks may be able to continue, so this was not the last
             // pass.
-            let moved = activity
-                != crate::circular_buffer::STREAM_ACTIVITY
-                    .load(std::sync::atomic::Ordering::Relaxed);
+            let moved = activity != crate::circular_buffer::stream_activity_count();
             if done && !moved {
                 break;
             }
